@@ -200,6 +200,32 @@ func genC06(c *Ctx) {
 			c.Case("reconstruct-large-is-group-signature", "th.groupsig "+s.envLine(), ans)
 		}
 	}
+	// ---- many signers with large indices: products of 17, 24, 33 and more indices around 250 (a wide accumulator that
+	// takes one index too many per batch wraps only there), highest indices first, lowest first, interleaved
+	for _, t := range []int{17, 23, 33, 40} {
+		s := newThSetup(c, 254, t)
+		desc := make([]int, t+1)
+		asc := make([]int, t+1)
+		mixd := make([]int, t+1)
+		for k := range desc {
+			desc[k] = 253 - k
+			asc[k] = 253 - t + k
+			if k%2 == 0 {
+				mixd[k] = 253 - k/2
+			} else {
+				mixd[k] = 200 + k/2
+			}
+		}
+		for _, idx := range [][]int{desc, asc, mixd} {
+			sh := make([]crypto.Signature, len(idx))
+			for k, i := range idx {
+				sh[k] = s.shares[i]
+			}
+			ans := recAns(s.n, s.t, sh, idx)
+			c.Case("reconstruct-many-large-indices", recLine(s.n, s.t, sh, idx), ans)
+			c.Case("reconstruct-many-large-is-group-signature", "th.groupsig "+s.envLine(), ans)
+		}
+	}
 	// ---- the stateful object, sequential op sequences
 	nSeq := 60
 	if c.thorough() {
